@@ -94,6 +94,11 @@ CHECKS = {
    technique="exhaustive enumeration of the flag-value product per subcommand, run against the built binary with a scripted random tape, compared with the library/model recipe the flags denote",
    text="The CLI's input space is a finite product of documented flag values; all combinations (within the stated value lists) are run through the real binary. stdout must be exactly one line - the library's password on the same tape or at least a password the denoted recipe can generate, or its entropy to two decimals - with status 0; refused recipes must exit 1 and usage errors 2 without printing a password.",
    note="Exploration level: values per flag are a stated finite list (documented names only); word passwords are validated by segmentation against the normalised list because word order inside the binary's list is not controlled."),
+ "C14": dict(
+   engine="E3-scheduler", category="model_checking", ref="§3 C14, §1 E3",
+   technique="stateless deviation-bounded DFS over thread schedules of the real code under a controlled scheduler (futex hand-off invisible to the race detector), -race build of a source-instrumented copy; per-schedule result, snapshot, deadlock and race-report oracles",
+   text="Nine small harness bodies share one CharRecipe, WLRecipe, WordList, a constructed separator function and the package-level presets between 2-3 threads. Every schedule with at most 1 (quick) / 2 (thorough, two-thread scenarios) deviations from the default schedule, at statement granularity in package spg and lock granularity in golang-set, is executed. Because hand-offs create no happens-before edge, the race detector checks every explored schedule; results must equal each call's sequential result on its own random stream and shared values must be unchanged.",
+   note="Bounded deviations (preemptions and non-default thread choices both cost 1); trusts the Go race detector for raw access pairs; helper goroutines of golang-set's Iter() run free; Go memory-model effects beyond race reports are not modelled."),
 }
 
 PENDING_REASON = "check not built yet in this session (planned in DESIGN.md §3; will be claimed when its checker exists)"
@@ -133,6 +138,7 @@ def main():
             dict(name="E2-maporder", path="/verif/harness/instrument/instrument.go", serves_properties=["C08","C10"], kind_free_text="AST instrumenter (map ranges -> verifrt.MapKeys, optional scheduling points) + go build -overlay + DFS over all iteration orders"),
             dict(name="E4-sequences", path="/verif/harness/checks/c15.go", serves_properties=["C15"], kind_free_text="explicit enumeration of operation sequences on live recipe values with differential + snapshot + model oracles"),
             dict(name="E5-cli", path="/verif/harness/checks/c17.go", serves_properties=["C17"], kind_free_text="command-line product enumerator over the built opgen binary (tag verif, $VERIF_TAPE)"),
+            dict(name="E3-scheduler", path="/verif/harness/sched/sched.go", serves_properties=["C14"], kind_free_text="controlled scheduler (one managed OS-thread-locked goroutine runs at a time, raw-futex hand-off in //go:norace code), schedule plans + logged menus, deviation-bounded DFS, sharded by first deviation"),
             dict(name="E-config", path="/verif/harness/checks/c07.go", serves_properties=["C07","C12","C16"], kind_free_text="exhaustive enumeration of recipe configurations (no randomness involved)"),
         ],
         checks=checks,
